@@ -16,7 +16,8 @@ inductive GK : Prog → Prop
   | throw (e : Err) : GK (.throw e)
   | draw (n : Nat) (k : UInt64 → Prog) : (∀ u, GK (k u)) → GK (.draw n k)
   | group (l : String) (s : Bool) (b : Prog) (d : Val → Bool) (k : Val → Prog) : GK b → (∀ v, GK (k v)) →
-      (∀ src ts v, (b.run src ts).res = .ok v → d v = false → (b.run src ts).kept ≠ []) → GK (.group l s b d k)
+      (∀ src ts v, (b.run src ts).res = .ok v → d v = false → (b.run src ts).used ≠ [] → (b.run src ts).kept ≠ []) →
+      GK (.group l s b d k)
   | catchInv (b : Prog) (k : Option Val → Bool → Prog) : GK b → (∀ o dr, GK (k o dr)) → GK (.catchInv b k)
   | errorf (m : String) (k : Prog) : GK k → GK (.errorf m k)
   | failOnError (site : Nat) (k : Prog) : GK k → GK (.failOnError site k)
@@ -113,7 +114,8 @@ theorem pruneGoT_run_ne {p : Prog} (hp : GK p) : ∀ (src : Src) (ts : TS) (rest
       simp only []
       split
       · simpa using haborted
-      · obtain ⟨g1, h1, h2, h3⟩ := hbody (Tok.cls (d v) :: (((k v).run (b.run src ts).src (b.run src ts).ts).toks ++ rest))
+      · rename_i hnotassert
+        obtain ⟨g1, h1, h2, h3⟩ := hbody (Tok.cls (d v) :: (((k v).run (b.run src ts).src (b.run src ts).ts).toks ++ rest))
         have hshape : (Tok.opn l s :: (b.run src ts).toks ++ [Tok.cls (d v)] ++ ((k v).run (b.run src ts).src (b.run src ts).ts).toks) ++ rest =
             Tok.opn l s :: ((b.run src ts).toks ++ (Tok.cls (d v) :: (((k v).run (b.run src ts).src (b.run src ts).ts).toks ++ rest))) := by simp
         simp only [after_toks, after_kept]
@@ -123,7 +125,12 @@ theorem pruneGoT_run_ne {p : Prog} (hp : GK p) : ∀ (src : Src) (ts : TS) (rest
           rw [rec_eta]
           exact ihk v (b.run src ts).src (b.run src ts).ts rest r st hne
         · simp only [pruneGoT, hd, Bool.false_eq_true, if_false]
-          have hkept : (b.run src ts).kept ≠ [] := hkeep src ts v hres (by simpa using hd)
+          have hused : (b.run src ts).used ≠ [] := by
+            intro hu
+            apply hnotassert
+            simp only [Bool.not_eq_true] at hd
+            simp [hd, hu]
+          have hkept : (b.run src ts).kept ≠ [] := hkeep src ts v hres (by simpa using hd) hused
           have hne2 : NE (g1.modify r.groups.length fun g => { g with end_ := ((r.data ++ (b.run src ts).kept).length : Int) }) := by
             intro g hg
             rcases mem_modify hg with hg | ⟨y, hy, rfl⟩
@@ -215,7 +222,7 @@ theorem pruneOK_of_gk {p : Prog} (hp : GK p) : PruneOK p := by
 
 theorem gk_group_fk {b : Prog} (l : String) (s : Bool) (d : Val → Bool) {k : Val → Prog} (hb : GK b) (hfk : FirstKept b)
     (hk : ∀ v, GK (k v)) : GK (.group l s b d k) :=
-  GK.group _ _ _ _ _ hb hk (fun src ts v hv _ => hfk src ts v hv)
+  GK.group _ _ _ _ _ hb hk (fun src ts v hv _ _ => hfk src ts v hv)
 
 theorem gk_drawret (n : Nat) (f : UInt64 → Val) : GK (.draw n fun u => .ret (f u)) := GK.draw _ _ (fun _ => GK.ret _)
 
@@ -280,15 +287,21 @@ theorem gk_intRange (ft : FT) (min max : Int64) (fuel : Nat) (k : Int64 → Bool
     · simp only [if_true]
       exact gk_uintRange _ _ _ _ _ _ (fun u l r => hk _ _ _)
 
-theorem gk_findLoop (body : Prog) (ok : Val → Bool) (k : Val → Prog) (hb : GK body) (hfk : FirstKept body)
+theorem gk_findLoop' (body : Prog) (ok : Val → Bool) (k : Val → Prog) (hb : GK body)
+    (hkeep : ∀ (src : Src) (ts : TS) (v : Val), (body.run src ts).res = .ok v → ok v = true →
+      (body.run src ts).used ≠ [] → (body.run src ts).kept ≠ [])
     (hk : ∀ v, GK (k v)) : ∀ n, GK (findLoop body ok k n)
   | 0 => GK.throw _
   | n+1 => by
     unfold findLoop
-    refine gk_group_fk _ _ _ hb hfk (fun v => ?_)
+    refine GK.group _ _ _ _ _ hb (fun v => ?_) (fun src ts v hv hd hu => hkeep src ts v hv (by simpa using hd) hu)
     split
     · exact hk v
-    · exact gk_findLoop body ok k hb hfk hk n
+    · exact gk_findLoop' body ok k hb hkeep hk n
+
+theorem gk_findLoop (body : Prog) (ok : Val → Bool) (k : Val → Prog) (hb : GK body) (hfk : FirstKept body)
+    (hk : ∀ v, GK (k v)) : ∀ n, GK (findLoop body ok k n) :=
+  gk_findLoop' body ok k hb (fun src ts v hv _ _ => hfk src ts v hv) hk
 
 theorem gk_moreCoin (c : RCfg) (s : RSt) (k : Bool → Prog) (hk : ∀ b, GK (k b)) : GK (moreCoin c s k) := by
   unfold moreCoin
@@ -305,7 +318,7 @@ theorem gk_repeatLoop (c : RCfg) (step : Val → Prog) (k : Val → Prog) (hs : 
   | 0, _, _ => GK.throw _
   | fuel+1, s, acc => by
     rw [repeatLoop_succ]
-    refine GK.group _ _ _ _ _ ?_ (fun r => ?_) (fun src ts v hv _ => (iter_ok c step hshape s acc src ts v hv).kept)
+    refine GK.group _ _ _ _ _ ?_ (fun r => ?_) (fun src ts v hv _ _ => (iter_ok c step hshape s acc src ts v hv).kept)
     · unfold iterBody
       refine gk_moreCoin _ _ _ (fun cont => ?_)
       cases cont
@@ -349,7 +362,10 @@ theorem gk_floatValue (ft : FT) (f : FFmt) (min max : UInt64) (fuel : Nat) (k : 
   unfold floatValue floatRange
   exact gk_coin _ _ (fun neg => by cases neg <;> exact gk_ufloatRange _ _ _ _ _ _ (fun _ _ _ => hk _))
 
-theorem gen_gk (e : Env) (hrt : RTPos e) : ∀ (g : Gen) (lab : Bool), g.NoCustom → GK (g.body e lab) := by
+theorem gen_gkB (e : Env) (hrt : RTPos e) (B : Prog → Prop)
+    (hB : ∀ (body : Prog) (lab : Bool), B body → GenGood (Gen.body e lab (.custom body)))
+    (hBk : ∀ (body : Prog) (lab : Bool), B body → GK (Gen.body e lab (.custom body))) :
+    ∀ (g : Gen) (lab : Bool), g.CustomsIn B → GK (g.body e lab) := by
   intro g
   induction g with
   | bool => intro _ _; exact gk_drawret _ _
@@ -359,29 +375,29 @@ theorem gen_gk (e : Env) (hrt : RTPos e) : ∀ (g : Gen) (lab : Bool), g.NoCusto
   | float f mn mx => intro _ _; exact gk_floatValue _ _ _ _ _ _ (fun _ => GK.ret _)
   | oneOf n gs ih =>
     intro lab h
-    exact gk_index _ _ _ _ _ (fun i => gk_wrapValue _ (ih i lab (h i)) (gen_good e hrt (gs i) lab (h i)).fk)
+    exact gk_index _ _ _ _ _ (fun i => gk_wrapValue _ (ih i lab (h i)) (gen_goodB e hrt B hB (gs i) lab (h i)).fk)
   | filter g p ih =>
     intro lab h
-    have hw := gk_wrapValue (g.lbl lab) (ih lab h) (gen_good e hrt g lab h).fk
+    have hw := gk_wrapValue (g.lbl lab) (ih lab h) (gen_goodB e hrt B hB g lab h).fk
     have hfk : FirstKept (wrapValue (g.lbl lab) (g.body e lab) >>- fun v => .ret (if p v then Val.cons v .nil else .nil)) :=
-      fk_bind_left _ _ (fk_group_keep _ _ _ _ (gen_good e hrt g lab h).fk)
+      fk_bind_left _ _ (fk_group_keep _ _ _ _ (gen_goodB e hrt B hB g lab h).fk)
     exact gk_findLoop _ _ _ (gk_bind_ret hw _) hfk (fun r => by split <;> exact GK.ret _) 5
   | map g f ih =>
     intro lab h
-    exact gk_bind_ret (gk_wrapValue _ (ih lab h) (gen_good e hrt g lab h).fk) f
+    exact gk_bind_ret (gk_wrapValue _ (ih lab h) (gen_goodB e hrt B hB g lab h).fk) f
   | slice el mn mx ih =>
     intro lab h
-    exact gk_repeatLoop _ _ _ (fun acc => gk_bind_ret (gk_wrapValue _ (ih true h) (gen_good e hrt el true h).fk) _)
+    exact gk_repeatLoop _ _ _ (fun acc => gk_bind_ret (gk_wrapValue _ (ih true h) (gen_goodB e hrt B hB el true h).fk) _)
       (stepShape_bind_ret _ (fun acc v => rAcc (acc.snoc v)) (fun acc v => Or.inr ⟨_, rfl⟩)) (fun acc => GK.ret _) _ _ _
   | distinct el mn mx key ih =>
     intro lab h
-    exact gk_repeatLoop _ _ _ (fun acc => gk_bind_ret (gk_wrapValue _ (ih true h) (gen_good e hrt el true h).fk) _)
+    exact gk_repeatLoop _ _ _ (fun acc => gk_bind_ret (gk_wrapValue _ (ih true h) (gen_goodB e hrt B hB el true h).fk) _)
       (stepShape_bind_ret _ (fun acc v => if acc.hasKey key (key v) then rRej else rAcc (acc.snoc v)) (fun acc v => rAcc_or _ _))
       (fun acc => GK.ret _) _ _ _
   | mapOf kg vg mn mx ihk ihv =>
     intro lab h
-    have hk := gk_wrapValue kg.label (ihk true h.1) (gen_good e hrt kg true h.1).fk
-    have hv := gk_wrapValue vg.label (ihv true h.2) (gen_good e hrt vg true h.2).fk
+    have hk := gk_wrapValue kg.label (ihk true h.1) (gen_goodB e hrt B hB kg true h.1).fk
+    have hv := gk_wrapValue vg.label (ihv true h.2) (gen_goodB e hrt B hB vg true h.2).fk
     let keyOf : Val → Val := fun kv => match kv with | .cons k' _ => k' | x => x
     let step : Val → Prog := fun acc => (wrapValue kg.label (kg.body e true)) >>- fun k => (wrapValue vg.label (vg.body e true)) >>- fun v =>
       .ret (if acc.hasKey keyOf k then rRej else rAcc (acc.snoc (.cons k v)))
@@ -400,7 +416,7 @@ theorem gen_gk (e : Env) (hrt : RTPos e) : ∀ (g : Gen) (lab : Bool), g.NoCusto
     exact gk_repeatLoop _ step _ (fun acc => gk_bind hk (fun k => gk_bind hv (fun v => GK.ret _))) hshape (fun acc => GK.ret _) _ _ _
   | mapOfValues vg mn mx key ih =>
     intro lab h
-    exact gk_repeatLoop _ _ _ (fun acc => gk_bind_ret (gk_wrapValue _ (ih true h) (gen_good e hrt vg true h).fk) _)
+    exact gk_repeatLoop _ _ _ (fun acc => gk_bind_ret (gk_wrapValue _ (ih true h) (gen_goodB e hrt B hB vg true h).fk) _)
       (stepShape_bind_ret _ (fun acc v => if acc.hasKey (fun kv => match kv with | .cons k' _ => k' | x => x) (key v) then rRej else rAcc (acc.snoc (.cons (key v) v)))
         (fun acc v => rAcc_or _ _)) (fun acc => GK.ret _) _ _ _
   | ptr el allowNil ih =>
@@ -408,7 +424,7 @@ theorem gen_gk (e : Env) (hrt : RTPos e) : ∀ (g : Gen) (lab : Bool), g.NoCusto
     refine gk_coin _ _ (fun b => ?_)
     cases b
     · exact GK.ret _
-    · exact gk_bind_ret (gk_wrapValue _ (ih lab h) (gen_good e hrt el lab h).fk) _
+    · exact gk_bind_ret (gk_wrapValue _ (ih lab h) (gen_goodB e hrt B hB el lab h).fk) _
   | perm n =>
     intro _ _
     let step : Val → Prog := fun acc =>
@@ -435,9 +451,9 @@ theorem gen_gk (e : Env) (hrt : RTPos e) : ∀ (g : Gen) (lab : Bool), g.NoCusto
       · simp only [Prog.run, Out.ofRes, Except.ok.injEq] at hres; exact ⟨_, hres.symm⟩
     exact gk_repeatLoop _ step _ hgk (fun acc src ts v hres => Or.inr (hacc acc src ts v hres))
       (fun acc => by split <;> exact GK.ret _) _ _ _
-  | custom body => intro _ h; exact False.elim h
-  | deferred g ih => intro _ h; exact gk_wrapValue _ (ih _ h) (gen_good e hrt g _ h).fk
-  | asAny g ih => intro lab h; exact gk_wrapValue _ (ih lab h) (gen_good e hrt g lab h).fk
+  | custom body => intro lab h; exact hBk body lab h
+  | deferred g ih => intro _ h; exact gk_wrapValue _ (ih _ h) (gen_goodB e hrt B hB g _ h).fk
+  | asAny g ih => intro lab h; exact gk_wrapValue _ (ih lab h) (gen_goodB e hrt B hB g lab h).fk
   | runeFrom runes =>
     intro _ _
     simp only [Gen.body, dieRoll]
@@ -445,7 +461,7 @@ theorem gen_gk (e : Env) (hrt : RTPos e) : ∀ (g : Gen) (lab : Bool), g.NoCusto
     split <;> exact gk_index _ _ _ _ _ (fun _ => GK.ret _)
   | stringOf el mnr mxr ml ih =>
     intro lab h
-    exact gk_repeatLoop _ _ _ (fun acc => gk_bind_ret (gk_wrapValue _ (ih true h) (gen_good e hrt el true h).fk) _)
+    exact gk_repeatLoop _ _ _ (fun acc => gk_bind_ret (gk_wrapValue _ (ih true h) (gen_goodB e hrt B hB el true h).fk) _)
       (stepShape_bind_ret _ (fun acc v => match v with
         | .int r => match runeLen r with
           | some n => if acc.byteLen + n > normMax ml then rRej else rAcc (acc.snoc v)
@@ -459,6 +475,9 @@ theorem gen_gk (e : Env) (hrt : RTPos e) : ∀ (g : Gen) (lab : Bool), g.NoCusto
               · exact Or.inr ⟨_, rfl⟩
             · exact Or.inl rfl
           · exact Or.inl rfl)) (fun acc => GK.ret _) _ _ _
+
+theorem gen_gk (e : Env) (hrt : RTPos e) : ∀ (g : Gen) (lab : Bool), g.NoCustom → GK (g.body e lab) :=
+  gen_gkB e hrt (fun _ => False) (fun _ _ h => h.elim) (fun _ _ h => h.elim)
 
 /-- property functions built from Custom-free generators and the `*T` API -/
 theorem propProg_gk (e : Env) (hrt : RTPos e) {p : Prog} (h : PropProg e p) : GK p := by
